@@ -99,9 +99,15 @@ def guarded_judge(prop, case):
         return {"labels": ["recursion"], "nontrivial": False, "violations": [], "inconclusive": "recursion"}
 
 
+class _BudgetReached(BaseException):
+    """raised inside the Hypothesis test body when the wall-clock budget of the run is used up; a BaseException, so
+    Hypothesis lets it through instead of treating it as a failing example"""
+
+
 def _worker(prop_name, tier, seed, shard, attempt, n, out_path, cur_path, done_path, shrink_sig=None):
     try:
         env.setup()
+        deadline = float(os.environ.get("VERIF_DEADLINE_TS", "0") or 0)
         import importlib
         prop = importlib.import_module("props." + prop_name)
         import hypothesis
@@ -129,6 +135,8 @@ def _worker(prop_name, tier, seed, shard, attempt, n, out_path, cur_path, done_p
             return prop.generate(rnd, tier)
 
         def body(case):
+            if deadline and time.time() > deadline:
+                raise _BudgetReached()
             with open(cur_path, "w") as cf:
                 json.dump(case, cf, default=str)
             res = guarded_judge(prop, case)
@@ -165,12 +173,15 @@ def _worker(prop_name, tier, seed, shard, attempt, n, out_path, cur_path, done_p
             settings(max_examples=n, deadline=None, database=None, report_multiple_bugs=False,
                      suppress_health_check=list(HealthCheck), phases=phases, derandomize=False,
                      verbosity=hypothesis.Verbosity.quiet)(given(cases())(body)))
+        stopped = False
         try:
             test()
         except AssertionError:
             if shrink_sig is None:
                 raise
-        result = {"fail": state["fail"], "last_fail": state["last_fail"], "samples": state["samples"]}
+        except _BudgetReached:
+            stopped = True
+        result = {"fail": state["fail"], "last_fail": state["last_fail"], "samples": state["samples"], "budget_stop": stopped}
     except BaseException as e:  # harness error inside the worker
         result = {"harness_error": "%s: %s\n%s" % (type(e).__name__, e, traceback.format_exc()[-3000:])}
     with open(done_path, "w") as f:
@@ -192,7 +203,7 @@ def run_shards(prop, prop_name, tier, seed, total, work, shrink=None):
     per = [total // nw + (1 if i < total % nw else 0) for i in range(nw)]
     ctx = mp.get_context("fork")
     procs = {}
-    meta = {"hard_kills": 0, "worker_crash": 0, "harness_errors": [], "killed_cases": []}
+    meta = {"hard_kills": 0, "worker_crash": 0, "harness_errors": [], "killed_cases": [], "budget_stops": 0}
 
     def start(shard, attempt, n):
         base = os.path.join(work, "s%d" % shard)
@@ -228,6 +239,7 @@ def run_shards(prop, prop_name, tier, seed, total, work, shrink=None):
                         if r.get("last_fail"):
                             last_fails.append(r["last_fail"])
                         samples.extend(r.get("samples", []))
+                        meta["budget_stops"] += 1 if r.get("budget_stop") else 0
                     finished.add(shard)
                 else:
                     # died without a result (native crash): skip the case it was on, restart the rest
@@ -421,7 +433,14 @@ def main(prop_name, tier, replay=None):
                 print("note: open finding %s no longer reproduces from its witness" % e["id"])
         # 3. generated search
         total = int(os.environ.get("VERIF_CASES", "0")) or prop.CASES[tier]
+        # wall-clock budget of the generated search: bounded by case count first; the thorough tier additionally stops
+        # drawing new cases after VERIF_BUDGET_S seconds (default 5400).  A budget stop is reported in the evidence
+        # (requested vs. evaluated cases) and is never a violation.
+        budget = int(os.environ.get("VERIF_BUDGET_S", "0") or 0) or (getattr(prop, "BUDGET_S", 5400) if tier == "thorough" else 0)
+        if budget:
+            os.environ["VERIF_DEADLINE_TS"] = repr(time.time() + budget)
         records, fails, samples, meta, _ = run_shards(prop, prop_name, tier, seed, total, work)
+        os.environ.pop("VERIF_DEADLINE_TS", None)
         if meta["harness_errors"]:
             print("HARNESS-ERROR in worker:\n" + meta["harness_errors"][0], file=sys.stderr)
             return 2
@@ -441,6 +460,7 @@ def main(prop_name, tier, replay=None):
                 swork = os.path.join(work, "shrink_" + hashlib.sha1(sig.encode()).hexdigest()[:6])
                 os.makedirs(swork)
                 try:
+                    os.environ["VERIF_DEADLINE_TS"] = repr(time.time() + 900)
                     _r, _f, _s, _m, lfs = run_shards(prop, prop_name, tier, seed, total, swork, shrink=sig)
                     if lfs:
                         best = min(lfs, key=lambda fc: len(json.dumps(fc["case"], default=str)))
@@ -482,6 +502,8 @@ def main(prop_name, tier, replay=None):
                 "counters": dict(counters),
                 "hard_kills": meta["hard_kills"], "worker_crash": meta["worker_crash"],
                 "killed_cases": meta["killed_cases"],
+                "requested_cases": total, "wall_budget_s": budget or None,
+                "stopped_by_budget": bool(meta["budget_stops"]),
                 "corpus_replayed": n_corpus,
                 "known_findings_replayed": [{"id": e["id"], "still_fails": s} for e, s in known_lines],
                 "violation_signatures": sorted(set(s for s, _ in violations)),
@@ -497,6 +519,9 @@ def main(prop_name, tier, replay=None):
         os.makedirs(evdir, exist_ok=True)
         with open(os.path.join(evdir, prop.ID + ".json"), "w") as f:
             json.dump(ev, f, indent=1, default=str)
+        if meta["budget_stops"]:
+            print("note: wall-clock budget of %d s reached after %d of %d requested cases (%d shards stopped early)" % (
+                budget, len(records), total, meta["budget_stops"]))
         print("%s %s seed=%d cases=%d nontrivial_distinct=%d inconclusive=%s excluded_known=%s hard_kills=%d wall=%.0fs" % (
             prop.ID, tier, seed, len(records), len(keys), dict(inc), dict(kn), meta["hard_kills"], time.time() - t0))
         print("classes: " + json.dumps(dict(sorted(labels.items()))))
